@@ -167,7 +167,7 @@ def _nonconstant(out, spec):
 
 def check(case, ctx):
     name = case["row"]
-    W = np.array(case["W"])
+    W = gen.layout(np.array(case["W"]), case.get("order"))
     n = len(W)
     fails = []
     ctx.label("row:" + name.split("(")[0])
@@ -175,11 +175,11 @@ def check(case, ctx):
     if name in TP:
         kind, spec, f = TP[name]
         ci = np.array(case["ci"])
-        call = lambda X, c: ctx.call(f, X.copy(), c.copy())
+        call = lambda X, c: ctx.call(f, gen.layout(X.copy(), case.get("order")), c.copy())
     else:
         kind, f, spec = T[name]
         ci = None
-        call = lambda X, c: ctx.call(f, X.copy())
+        call = lambda X, c: ctx.call(f, gen.layout(X.copy(), case.get("order")))
     o0 = call(W, ci)
     if o0.status == "timeout":
         return fails
@@ -242,6 +242,13 @@ def check(case, ctx):
                 return fails
         if not np.array_equal(Wp, W) and _nonconstant(o0.value, spec):
             ctx.mark_nontrivial({"row": name, "W": W, "p": p})
+    # history: after the calls on the renumbered networks, the original network must give the original answer again
+    # (a result cache keyed on shape / identity, or any other state kept between calls, would show here)
+    o9 = call(W, ci)
+    if o9.status != "timeout" and o0.status != "timeout":
+        d, how = compare.outcomes_equal(o0, o9)
+        if d:
+            fails.append(Failure("%s:repeated-call-gives-different-result" % name, "first vs last call on the same network: %s" % d, case))
     return fails
 
 
@@ -295,7 +302,7 @@ def cases(draw, name, nmax):
         perms = [list(p) for p in itertools.permutations(range(n))][1:]
     else:
         perms = [list(draw(st.permutations(list(range(n))))) for _ in range(3)]
-    c = {"row": name, "W": W, "perms": perms, "family": fam}
+    c = {"row": name, "W": W, "perms": perms, "family": fam, "order": draw(st.sampled_from(gen.ORDERS))}
     if name in TP:
         c["ci"] = draw(gen.partition(n))
     return c
